@@ -6,17 +6,23 @@ usage: universe.py <PROPERTY>     env: VERIF_REPO (default /repo), VERIF_TIER (q
 prints one JSON document: {"name", "label": "bounded", "bounded_universe", "bounded_evaluations",
                            "bounded_distinct_nontrivial", "failures": [{"clause", "key", "input", ...}]}
 
-Universe (stated bound): 120 (quick) / 1200 (thorough) seeded random projects per property: 1 h slots, UTC, project
-2025-01-06 (Mon) + 3 weeks; 1-2 leaf resources (efficiency 1 or 0.5, optional dailymax, optional leave day); 2-4 leaf
-tasks incl. milestones at a dependency bound, optionally one container; efforts from {1h, 3h, 8h, 13h, 20min, 90min};
-priorities {100, 500, 900}; dependency DAGs with optional gapduration {0, 2h}; ASAP (C04/C08/C11 also project-level
-ALAP). Plus per-property sub-universes: DST zones x 7-day shifts across a transition (C02); two-member teams with
-whole-slot efforts and member-restricted task limits (C03); containers with fixed-date milestones / nested packages /
-milestone-only plans (C10); a resource on leave for the whole horizon (C11); macro leakage from earlier runs (C12);
-week shifts incl. 53-week years (C14); nested containers repeating local ids, relative vs absolute references, precedes,
-comments, macros (C15); leaf-only reports over trees repeating local ids (C18). Regions of recorded open findings
-(KNOWN_FINDINGS.json: team effort ending mid-slot, teams sharing a limit, ALAP tasks sharing a slot, unaligned
-calendars, '+Nm' project lengths, duplicate report columns) are not generated; portions below 0.5 s are float dust.
+Universe (stated bound): 120 (quick) / 1200 (thorough) seeded random projects per property: slots of 1 h (also 30 and
+15 min for the single-project properties), UTC, project 2025-01-06 (Mon) + 3 weeks; 1-2 leaf resources (efficiency in
+{0.5, 1, 1.5, 2}, optional dailymax, optional leave day, optional own working hours); 2-4 leaf tasks incl. milestones at
+a dependency bound, optionally one container; efforts from {1h, 3h, 8h, 13h, 20min, 90min}; priorities {100, 500, 900};
+dependency DAGs with optional gapduration {0, 2h}; ASAP (C04/C08/C11 also project-level ALAP). Plus per-property
+sub-universes (n/2 .. n/12 projects each): DST zones x 7-day shifts across a transition (C02); two-member teams with
+whole-slot efforts and member-restricted task limits, allocations with one or two alternatives (C03); gaplength edges at
+three resolutions, also beyond the horizon (C04, C11); group / task / weekly / fractional limits, mid-day and year-end
+starts (C05); ALAP teams with different shifts or a busy member, container limits used up by a sibling (C06); implicit
+milestone gates in front of a high-priority task (C09); containers with fixed-date milestones / nested packages /
+milestone-only plans (C10); a resource on leave for the whole horizon (C11); macro leakage from earlier (also failing)
+runs (C12); night shifts and weekday subsets, extensions on vs off (C13); week shifts incl. 53-week years (C14); nested
+containers repeating local ids, relative vs absolute references, precedes, comments, macros (C15); scenario-specific
+start/effort on a task nested in a dated container (C16); generated .csv/.json files with CSV punctuation in cells,
+leaf-only reports over trees repeating local ids (C18). Regions of recorded OPEN findings (KNOWN_FINDINGS.json: team
+effort ending mid-slot, teams sharing a limit, ALAP tasks sharing one resource and a slot, unaligned calendars, '+Nm'
+project lengths, duplicate report columns) are not generated; portions below 0.5 s are float dust.
 """
 import io
 import itertools
@@ -826,6 +832,29 @@ def main():
             for sc in range(2):
                 if dates(proj2, sc) != one:
                     fails.append({"clause": "C16:scenario-differs", "key": f"C16/{SEED}/{k}", "detail": f"scenario {sc}", "input": render(p, scenario2=True)})
+                    break
+        # second sub-universe: a scenario-specific attribute on a task nested in a dated container changes only that scenario
+        for k in range(n // 3):
+            d1 = START + dt.timedelta(days=rng.choice([0, 7, 2]))
+            d2 = d1 + dt.timedelta(days=rng.choice([7, 9, 14]))
+            e1, e2, e3 = rng.choice(["3h", "8h", "13h"]), rng.choice(["5h", "20h"]), rng.choice(["2h", "8h"])
+            kind = rng.choice(["start", "effort"])
+            ov = f"start {d2.strftime('%Y-%m-%d')}" if kind == "start" else f"effort {e2}"
+
+            def txt(scen, x_attrs):
+                return (f'project prj "P" 2025-01-06 +5w {{ timezone "UTC"{scen} }}\nresource r1 "r1" {{}}\nresource r2 "r2" {{}}\n'
+                        f'task g "G" {{ start {d1.strftime("%Y-%m-%d")}\n  task x "x" {{ {x_attrs} allocate r1 }}\n'
+                        f'  task y "y" {{ effort {e3} allocate r2 depends !x }}\n}}\ntask z "z" {{ effort 3h allocate r1 }}\n')
+            two = run(txt(' scenario plan "Plan" { scenario delayed "Delayed" }', f"effort {e1} delayed:{ov}"))
+            one_plan = run(txt("", f"effort {e1}"))
+            one_delayed = run(txt("", f"effort {e1} {ov}" if kind == "start" else f"effort {e2}"))
+            evals += 1
+            record(("ovr", k), txt(' scenario plan "Plan" { scenario delayed "Delayed" }', f"effort {e1} delayed:{ov}"))
+            for sc, ref, nm in ((0, one_plan, "plan"), (1, one_delayed, "delayed")):
+                if dates(two, sc) != dates(ref, 0):
+                    diff = {f: (dates(two, sc)[f], dates(ref, 0)[f]) for f in dates(ref, 0) if dates(two, sc)[f] != dates(ref, 0)[f]}
+                    fails.append({"clause": "C16:override-leaks", "key": f"C16/ovr/{SEED}/{k}", "detail": f"scenario {nm}: {diff}"[:300],
+                                  "input": txt(' scenario plan "Plan" { scenario delayed "Delayed" }', f"effort {e1} delayed:{ov}")})
                     break
     elif prop == "C18":
         for k, p in enumerate(gen_projects(rng, n // 2)):
